@@ -163,6 +163,34 @@ theorem C11_ucast_fmt (id class_ : Nat) (unique : Bool) :
   rw [GenFacts.out_class_flush, GenFacts.out_class_plain]
   simp
 
+/-- the two constructors: `construct_outgoing_multicast_answers` builds a multicast `DNSOutgoing` (so `C11_mcast_fmt`
+applies to every multicast reply), `construct_outgoing_unicast_answers` a non-multicast one whatever the query id and
+source port are — in particular a legacy query with id 0 gets id 0 echoed and still no cache-flush bit -/
+theorem C11_reply_constructors (id class_ : Nat) (unique ucastSource : Bool) :
+    mcastReplyMulticast = true ∧ ucastReplyMulticast id ucastSource = false ∧
+    wireId (ucastReplyMulticast id ucastSource) id = id ∧ wireClass class_ unique (ucastReplyMulticast id ucastSource) = class_ := by
+  have h1 : ucastReplyMulticast id ucastSource = false := GenFacts.ans_unicast_multicast_arg _ _
+  refine ⟨GenFacts.ans_multicast_multicast_arg, h1, ?_, ?_⟩
+  · rw [h1]; exact (C11_ucast_fmt id class_ unique).1
+  · rw [h1]; exact (C11_ucast_fmt id class_ unique).2.2
+
+/-- "has a QU question" — what exempts a query from the listener's duplicate suppression, so that a QU question is
+answered however the copies of a datagram arrive — is true iff **any** question of the packet has the QU bit, in
+whatever position -/
+theorem C11_has_qu (qus : List Bool) : hasQuFlag qus = qus.any id := by
+  unfold hasQuFlag
+  have key : ∀ (l : List Bool) (acc : Bool),
+      l.foldl (fun flag u => if Gen.Reply.in_qu_flag_test u then Gen.Reply.in_qu_flag_value u else flag) acc = (acc || l.any id) := by
+    intro l
+    induction l with
+    | nil => intro acc; simp
+    | cons u l ih =>
+      intro acc
+      simp only [List.foldl_cons, List.any_cons, id]
+      rw [ih, GenFacts.in_qu_flag_test, GenFacts.in_qu_flag_value]
+      cases u <;> cases acc <;> simp
+  simpa using key qus false
+
 /-! ## C11_family — address family of destination and socket agree -/
 
 /-- `can_send_to`: a datagram is handed to a socket only when "the address contains a colon" agrees
@@ -172,6 +200,7 @@ theorem C11_family (ipv6_socket address_has_colon : Bool) :
   GenFacts.can_send_to _ _
 
 /-! non-vacuity -/
+example : hasQuFlag [true, false] = true ∧ hasQuFlag [false, true, false] = true ∧ hasQuFlag [false, false] = false := by decide
 example : withinQuarter (SeenMap.get [(5, { created := 1000, ttl := 120 })] 5) 30999 = true := by decide
 example : withinQuarter (SeenMap.get [(5, { created := 1000, ttl := 120 })] 5) 31000 = false := by decide
 example : (({} : QR).route (Gen.Reply.ucast_source 5353) false [(5, { created := 1000, ttl := 120 })] 31000 1 12 true [(5, [])]).mcastNow = [5] := by decide
